@@ -101,6 +101,13 @@ def opts2s(l):
     return ','.join(o2s(x) for x in l) if len(l) else '()'
 
 
+def rzs_is_diag(aff):
+    """the affine's 3x3 part is diagonal up to np.allclose's default tolerances (the documented meaning of
+    enforce_diag); written here so that the harness uses no private name of nibabel"""
+    rzs = np.asarray(aff)[:3, :3]
+    return bool(np.allclose(rzs, np.diag(np.diag(rzs))))
+
+
 def err_enum(e):
     from nibabel.orientations import OrientationError
     if isinstance(e, IndexError):
@@ -157,7 +164,7 @@ def image_classes():
 
 KINDS = {'i32': 'int32 arange', 'i16': 'int16 arange', 'i32big': 'int32 above 2**24 (odd: not exact in float32)',
          'i64': 'int64 above 2**40', 'f64': 'float64 with more than 24 significant bits'}
-HISTS = [(), (), ('G64',), ('G32',), ('G32', 'E'), ('G32', 'U'), ('N32',), ('G64', 'E', 'G32'), ('G32', 'U', 'G64')]
+HISTS = [(), (), ('G64',), ('G32',), ('G32', 'E32'), ('G32', 'U'), ('N32',), ('G64', 'E64', 'G32'), ('G32', 'U', 'G64')]
 
 
 def make_data(kind, shape):
@@ -187,16 +194,17 @@ def cache_op(img, tok):
         img.get_fdata(dtype=np.float32, caching='unchanged')
     elif tok == 'U':
         img.uncache()
-    elif tok == 'E':
-        c = getattr(img, '_fdata_cache', None)
-        if c is not None and not (isinstance(img.dataobj, np.ndarray) and np.shares_memory(c, img.dataobj)):
+    elif tok in ('E32', 'E64'):
+        # get_fdata returns the cached array itself when one of that dtype is cached (public, documented): edit it
+        c = img.get_fdata(dtype=np.float32 if tok == 'E32' else np.float64)
+        if not (isinstance(img.dataobj, np.ndarray) and np.shares_memory(c, img.dataobj)):
             c += 7
 
 
 def hist_tokens(hist):
     """the same history for the model's `ops` line (conversions are tagged so that a use of the cache would show)"""
-    m = {'G64': 'G=1000', 'G32': 'G=2000', 'N32': 'N=2000', 'E': 'E=7', 'U': 'U=0'}
-    return [m[t] for t in hist]
+    m = {'G64': ['G=1000'], 'G32': ['G=2000'], 'N32': ['N=2000'], 'E32': ['G=2000', 'E=7'], 'E64': ['G=1000', 'E=7'], 'U': ['U=0']}
+    return [x for t in hist for x in m[t]]
 
 
 def make_img(cls, shape, A, dim=None, proxy=False, kind='i32', hist=()):
@@ -866,7 +874,7 @@ def run(chk: Check):
         shape = tuple(rng.randint(1, 4) for _ in range(3))
         img, data = make_img('n1', shape, A)
         got = no.io_orientation(A)
-        diag_after = funcs._aff_is_diag(A @ no.inv_ornt_aff(got, shape))
+        diag_after = rzs_is_diag(A @ no.inv_ornt_aff(got, shape))
         case = {'op': 'enforce_diag', 'shape': list(shape), 'affine': mat2s(A)}
         try:
             c1 = as_closest_canonical(img, enforce_diag=True)
@@ -1231,7 +1239,7 @@ def replay(chk, obj):
                 bad = bad or 'squeeze_image changed values or affine'
         else:
             got = no.io_orientation(A)
-            diag_after = funcs._aff_is_diag(A @ no.inv_ornt_aff(got, shape))
+            diag_after = rzs_is_diag(A @ no.inv_ornt_aff(got, shape))
             try:
                 funcs.as_closest_canonical(img, enforce_diag=True)
                 bad = None if diag_after else 'answered with a non-diagonal affine'
@@ -1246,11 +1254,15 @@ def replay(chk, obj):
         img, data = make_img(c['cls'], shape, A, tuple(c['dim_info']) if c.get('dim_info') else None, bool(c.get('proxy')),
                              c.get('kind', 'i32'))
         cur = img
-        back = {'G=1000': 'G64', 'G=2000': 'G32', 'N=2000': 'N32', 'E=7': 'E', 'U=0': 'U'}
+        back = {'G=1000': 'G64', 'G=2000': 'G32', 'N=2000': 'N32', 'U=0': 'U'}
+        last = 'G64'
         try:
             for t in c['ops'].split(';'):
-                if t in back:
+                if t == 'E=7':
+                    cache_op(cur, 'E32' if last == 'G32' else 'E64')
+                elif t in back:
                     cache_op(cur, back[t])
+                    last = back[t] if back[t] in ('G32', 'G64') else last
                 elif t[0] == 'R':
                     cur = cur.as_reoriented(np.array([[int(x) for x in r.split(':')] for r in t[2:].split(',')]))
                 else:
